@@ -356,6 +356,8 @@ def _merge(dumps):
 
 def reduce_case(mod, case, signature, budget_s=20.0, max_tries=120):
     """Greedy deterministic reduction over the JSON case (DESIGN 3.7)."""
+    from pbt.guard import HangSuspected, wall_guard
+
     simplify = getattr(mod, "simplify", None)
     if simplify is None:
         return case
@@ -369,8 +371,9 @@ def reduce_case(mod, case, signature, budget_s=20.0, max_tries=120):
             if time.time() - t0 > budget_s or tries > max_tries:
                 break
             try:
-                out = mod.check_case(cand)
-            except Exception:  # noqa: BLE001
+                with wall_guard(30):
+                    out = mod.check_case(cand)
+            except (Exception, HangSuspected):  # noqa: BLE001 - incl. MemoryError under the rlimit
                 continue
             if out.violation and not out.known and out.violation["clause"] == signature:
                 case = cand
@@ -468,10 +471,23 @@ def run_check(prop, tier, seed):
         if key not in seen:
             seen[key] = v
     replay_paths = []
+    try:  # the reduction re-runs cases in this process: keep a runaway mutant from exhausting the machine
+        import resource
+
+        lim = int(float(os.environ.get("VERIF_MEM_GB", "3")) * 2 ** 30) + 2 * 2 ** 30
+        resource.setrlimit(resource.RLIMIT_AS, (lim, lim))
+    except Exception:  # noqa: BLE001
+        pass
     for key, v in list(seen.items())[:5]:
-        case = reduce_case(mod, v["case"], v["violation"]["clause"])
-        out = mod.check_case(case)
-        violation = out.violation or v["violation"]
+        try:
+            case = reduce_case(mod, v["case"], v["violation"]["clause"])
+            from pbt.guard import HangSuspected, wall_guard
+
+            with wall_guard(60):
+                out = mod.check_case(case)
+            violation = out.violation or v["violation"]
+        except (Exception, HangSuspected):  # noqa: BLE001
+            case, violation = v["case"], v["violation"]
         rel = write_replay(prop, v["subcheck"], case, violation)
         replay_paths.append(rel)
         print("VIOLATION property=%s replay=%s" % (prop, rel))
